@@ -1,6 +1,8 @@
 """C04 - the generator-side tracker (StatefulInterpreter) simulates the machine: per-call effect tables agree."""
 from __future__ import annotations
 
+import ast
+
 from ..core import machine as M, pymachine as PM
 from ..core.pyeval import show
 from ..core.pyfacts import PyRepo
@@ -120,11 +122,37 @@ def claim_queue(ctx, py, w):
     ctx.floor('claim-queue', 1)
 
 
+def arity_enforced(ctx, py: PyRepo, w: Wiring):
+    """the machine fails when an instruction needs more entries than the stack holds; so must the tracker.  Unpacking, indexing,
+    `pop()` and comparing a slice with a list of known length all fail on a short stack.  `zip(..)` does not: it stops at the
+    shorter sequence, so operands compared pairwise through zip over the tracked stack are accepted when the stack is too short
+    (the slice that follows removes what is there and the emitted instruction underflows the machine)."""
+    def zips_over_stack(fn):
+        for n in ast.walk(fn):
+            if isinstance(n, ast.Call) and isinstance(n.func, ast.Name) and n.func.id == 'zip' \
+                    and not any(k.arg == 'strict' and isinstance(k.value, ast.Constant) and k.value.value is True for k in n.keywords) \
+                    and any(isinstance(x, ast.Attribute) and x.attr == 'stack' and isinstance(x.value, ast.Name) and x.value.id == 'self'
+                            for a in n.args for x in ast.walk(a)):
+                yield n
+    example = ast.parse('def h(self, *ops):\n    for e, g in zip(reversed(self.stack), reversed(ops)):\n        assert e == g\n').body[0]
+    ctx.require(len(list(zips_over_stack(example))) == 1, 'arity-enforced: the detector no longer recognises its own positive example')
+    n = 0
+    for mname, fn in w.stateful.methods.items():
+        for z in zips_over_stack(fn):
+            n += 1
+            ctx.ob('arity-enforced', f'{w.stateful.name}.{mname}', False,
+                   f'{w.stateful.name}.{mname} compares the tracked stack with its operands through `{ast.unparse(z)[:70]}`: zip stops at the '
+                   f'shorter sequence, so a call that needs more entries than the stack holds is accepted and the instruction written for it '
+                   f'fails in the checker ("Insufficient stack items")', py.where(w.stateful.module, z))
+    ctx.ob('arity-enforced', 'scan', True, f'{n} zip(..) comparisons over the tracked stack (detector self-checked on a positive example)', '')
+
+
 def run(ctx):
     py = PyRepo.get()
     r = Rust.get()
     w = Wiring(py)
     arms = M.rust_arms(r)
+    arity_enforced(ctx, py, w)
     mem_py, mem_rs = set(), set()
     for meth in PM.INTERP_METHODS:
         got = w.serializer_cases(meth)
@@ -252,6 +280,11 @@ def run(ctx):
     # the generator applies Generalization under ITS freshness judgement, the machine under the documented one (shared with C02)
     from .c02 import judgement_agreement
     judgement_agreement(ctx, py)
+    # the tracker computes the term an Instantiate leaves with the generator's substitution, the machine with the checker's: the two
+    # substitution algebras are the same table (shared with C11 / C02)
+    from . import c11
+    c05.subst_conformance(ctx, r)
+    c11.python_half(ctx, py)
     ctx.floor('load-address', 2)
     ctx.explanation = (
         'For every interpreter call the tracker\'s effect (number and Term kind of pops, pushes, memory appends, claim consumption; '
